@@ -572,6 +572,25 @@ func evalC20Wrap(f []string) Result {
 	if strings.Join(recv, ",") != strings.Join(wantRecv, ",") {
 		direct = fail("wrap-order", "request was received by %v, the property demands %v", recv, wantRecv)
 	}
+	// The same middleware list applied again (one shared list wrapped around several
+	// handlers) must give the same order: Wrap must not disturb its argument.
+	if direct == "ok" {
+		var evs2 []string
+		for _, m := range mws {
+			m.(*c20OrderMw).log = &evs2
+		}
+		h2 := http.HandlerFunc(func(http.ResponseWriter, *http.Request) { evs2 = append(evs2, "h") })
+		httputil.Wrap(h2, mws...).ServeHTTP(httptest.NewRecorder(), httptest.NewRequest(http.MethodGet, "/", nil))
+		var recv2 []string
+		for _, e := range evs2 {
+			if e[0] != 'x' {
+				recv2 = append(recv2, e)
+			}
+		}
+		if strings.Join(recv2, ",") != strings.Join(wantRecv, ",") {
+			direct = fail("wrap-order-reuse", "second Wrap with the same list: received by %v, the property demands %v", recv2, wantRecv)
+		}
+	}
 	class := "trivial-wrap"
 	if len(mws) >= 2 {
 		class = "wrap"
